@@ -423,6 +423,11 @@ def run(ctx):
             ("scale 'x'", ("x", 5, None, "bytes"), True),
             ("precision -1", (2, -1, None, "bytes"), True),
             ("precision '5'", (2, "5", None, "bytes"), True),
+            ("scale '' (not an integer, and falsy)", ("", 5, None, "bytes"), True),
+            ("scale 0.0 (a float)", (0.0, 5, None, "bytes"), True),
+            ("precision '' (not an integer, and falsy)", (0, "", None, "bytes"), True),
+            ("precision 0.0 (a float)", (0, 0.0, None, "bytes"), True),
+            ("scale 0, precision 5", (0, 5, None, "bytes"), False),
             ("scale 6 > precision 5", (6, 5, None, "bytes"), True),
             ("scale 2, precision 5, bytes", (2, 5, None, "bytes"), False),
             ("no scale, precision 5, bytes", (None, 5, None, "bytes"), False),
